@@ -39,6 +39,8 @@ def classify_write(adt, field, w, ctx):
             return "reset", "clear()"
         if nm == "set" and len(w["args"]) == 3 and w["args"][2] == const(True):
             return "or", "set(pos, true)"
+        if nm in ("bitor_assign", "union_with") and len(w["args"]) == 2:
+            return "or", "bs |= other"
         return None, "call %s" % nm
     if how == "store":
         v = w["value"]
@@ -124,6 +126,12 @@ def run(ctx):
             nret += 1
             if not [e for e in p.events if e["kind"] == "write" and self_field(e) == field and e["how"] == "store"]:
                 nskip += 1
+        if cm["form"] == "in-place-or":
+            # every returning path performs the call
+            nskip = 0
+            for p in pem.paths():
+                if p.exit_kind == "return" and not [e for e in p.events if e["kind"] == "write" and self_field(e) == field and e["how"] == "call" and e.get("name") in ("bitor_assign", "union_with")]:
+                    nskip += 1
         if nskip and cm["form"] != "in-place":      # (the in-place loop form stores in every iteration of a loop run to exhaustion)
             okm = False
             desc = "%d of %d returning paths skip the combination; " % (nskip, nret) + desc
